@@ -41,13 +41,20 @@ META = {
             "normalization": "False, True, 'return' / 'local' / 'separate' / 'prod' / 'global' where offered",
             "cluster / loop expansions": "max_distance >= diameter, loopunion, fillin; gloops / sloops = the whole ring (explicit and auto-generated); "
                                          "combine sum and prod; gauges none / all bonds (positive symbols)",
-            "1D": "MPS L=3, bond 2: environment routes complex; canonical routes real with the record (c,c) as hypothesis, every centre c",
+            "1D": "MPS L=3, bond 2: environment routes complex; canonical routes real with the record (c,c) as hypothesis, every centre c; "
+                  "[numeric-only] canonical routes WITHOUT a record (centre detected by calc_current_orthog_center) on un-normalised complex "
+                  "MPS L=4 bond 2 in left / right / mixed canonical form up to a scalar on any one tensor or on all, generic and product "
+                  "states: every site, every ordered pair, normalized False / True",
+            "2D normalize": "[numeric-only] normalize() x layer_tags x (balance_bonds, equalize_norms, inplace, mode, canonize) on complex PEPS "
+                            "2x2, 3x2, 2x3 (3x3 with one lazy gate) incl. networks with more / fewer tensors than sites (lazy one- and two-site "
+                            "gates, split gates, merged sites), then normalized=False expectations on the result",
             "2D": "PEPS 2x2 bond 2 complex (all modes: mps, full-bond, flat, ungrouped, x/y first); 3x2 with one entangled column (QR stubs)",
             "3D": "PEPS3D 2x2x2, bond 2 on a 3-bond path (complex), two site tuples",
             "operators networks": "MPO L=3, rectangular 2-site generic operator, PEPO 2x2",
         },
         "thorough": {
-            "adds": "ring4 and star4 with every listed site tuple incl. triples, partial gauges, MPS L=4, "
+            "adds": "ring4 and star4 with every listed site tuple incl. triples, partial gauges, MPS L=4, record-free canonical routes on "
+                    "L=5 bond 3, normalize() on every 3x3 / 2x3 variant, "
                     "every PEPS option x site tuple, 3x2 / 2x3 PEPS with two entangled columns / an entangled row, "
                     "every PEPS3D option x site tuple, cyclic MPO, unit-norm gauges for the global loop normalization",
         },
@@ -58,7 +65,13 @@ META = {
         "simple-loop expansion on networks that are not a single ring (a simple loop cannot cover a chord)",
         "rehearse=..., executor=..., progbar options; sample_configuration_cluster (random)",
         "partial_trace(reduce=True) (documented experimental, 2 sites only)",
-        "PEPS.normalize in symbolic mode (takes the power -1/(2N) of <psi|psi>): checked in the numeric cross-run only",
+        "PEPS.normalize in symbolic mode (takes the power -1/(2N) of <psi|psi>): checked in the numeric cross-run only "
+        "(peps_2x2_routes, peps_normalize_numeric)",
+        "count_canonized / calc_current_orthog_center in symbolic mode (an allclose decision on concrete environments): the record-free "
+        "canonical routes are numeric-only (mps_canonical_routes_calc_numeric)",
+        "2D boundary / plaquette routes on lattices with more than 2 rows or columns whose tensor count differs from the site count, other "
+        "than lazy one-site gates with layer_tags=None (rejected by the library with KeyError / ValueError); "
+        "PEPS.compute_local_expectation (plaquette route) on networks carrying lazy gate tensors (returns a non-scalar Tensor)",
         "PEPS boundary compression with bond > 1 on the compressed bonds in symbolic mode (certificates too large): those instances run "
         "in the numeric cross-run (all bonds 2, complex, real LAPACK); symbolic instances keep bond 2 only on the listed bonds",
         "PEPS3D lattices with a size-1 dimension (PEPS3D.partial_trace raises IndexError), cyclic lattices",
@@ -724,6 +737,99 @@ def lo_hi_contains(where, c):
     return min(where) <= c <= max(where)
 
 
+def _iso_defect(t, keep):
+    """max |M^dag M - 1| of tensor t seen as a matrix (all other indices) -> (index `keep`)"""
+    rows = [ix for ix in t.inds if ix != keep]
+    M = np.asarray(t.to_dense(rows, [keep]))
+    return float(np.max(np.abs(M.conj().T @ M - np.eye(M.shape[1]))))
+
+
+def _record_is_valid(mk, label, tn, lo, hi, tol=1e-7):
+    """a record (lo, hi) claims: every site < lo is a left isometry, every site > hi a right isometry"""
+    bad = [("left", i) for i in range(lo) if _iso_defect(tn[i], tn.bond(i, i + 1)) > tol]
+    bad += [("right", i) for i in range(hi + 1, tn.L) if _iso_defect(tn[i], tn.bond(i - 1, i)) > tol]
+    mk.same(label, bad, [])
+
+
+_CALC_FORMS = ("left", "right", "mixed", "generic", "product")
+
+
+@obligation(PROP, params=[{"form": f, "L": 4, "D": 2} for f in _CALC_FORMS]
+            + [{"form": f, "L": 5, "D": 3, "_tiers": _T} for f in _CALC_FORMS], numeric=True, wall_s=500, timeout_s=700)
+def mps_canonical_routes_calc_numeric(mk, form, L, D):
+    """[numeric-only supplement] the canonical-form routes called WITHOUT a record (info=None, {} or 'calc': the
+    orthogonality centre is then detected by calc_current_orthog_center / count_canonized, an allclose test) on
+    UN-NORMALISED complex MPS that are in left / right / mixed canonical form up to one per-tensor scalar (every
+    position of the scaled tensor, and all tensors scaled), plus generic and product states: every single site and
+    every ordered pair, normalized False and True, against the dense state; the detected record is itself checked
+    against its meaning (sites outside it are isometries) and canonicalize(cur_orthog='calc') against its
+    postcondition (same state, isometries outside the target range)."""
+    mk.encodes(c1.TensorNetwork1DFlat.count_canonized, c1.TensorNetwork1DFlat.calc_current_orthog_center,
+               c1.TensorNetwork1DFlat.canonicalize, c1.MatrixProductState.partial_trace_to_dense_canonical,
+               c1.MatrixProductState.local_expectation_canonical, c1.MatrixProductState.compute_local_expectation_canonical,
+               c1.MatrixProductState.compute_local_expectation)
+    if mk.sym:
+        mk.note("numeric-only: count_canonized decides with allclose on concrete environments; canonical forms need real QR")
+        mk.same("numeric-only cell (symbolic run skipped)", True, True)
+        return
+    dims = (2,) * L
+    base = mps_sym(mk, L, kind="cplx", D=1 if form == "product" else D)
+    if form == "left":
+        base.left_canonicalize_()
+    elif form == "right":
+        base.right_canonicalize_()
+    elif form == "mixed":
+        base.left_canonicalize_(stop=L // 2)
+        base.right_canonicalize_(stop=L // 2)
+    wheres = [(i,) for i in range(L)] + [(i, j) for i in range(L) for j in range(L) if i != j]
+    ops = {1: mk.array("O1", (2, 2), "cplx"), 2: mk.array("O2", (4, 4), "cplx")}
+    ops2 = {1: mk.array("Q1", (2, 2), "cplx"), 2: mk.array("Q2", (4, 4), "cplx")}
+    for k in list(range(L)) + ["each"]:
+        s = 1.0 + float(mk.scalar(f"s{k}", "pos"))          # in [1.125, 2.5]: never 1
+        psi_tn = base.copy()
+        if k == "each":
+            psi_tn.multiply_each_(s)
+        else:
+            psi_tn[k].modify(data=s * psi_tn[k].data)
+        tag = f"[numeric-only] {form}-canonical MPS (L={L}), tensor {k} scaled: "
+        psi = dense_vec(psi_tn, range(L))
+        nrm2 = norm2_ref(psi)
+        lo, hi = psi_tn.calc_current_orthog_center()
+        _record_is_valid(mk, tag + f"calc_current_orthog_center() = {(lo, hi)}: sites outside are isometries", psi_tn, lo, hi)
+        for where in wheres:
+            G = ops[len(where)]
+            e_w = expect_ref(psi, G, where, dims)
+            rho_w = rdm_ref(psi, where)
+            w2 = tuple(reversed(where)) if len(where) > 1 else ((where[0] + 1) % L,)
+            G2 = ops2[len(w2)]
+            e2 = expect_ref(psi, G2, w2, dims)
+            q = psi_tn.canonicalize(where, cur_orthog="calc")
+            mk.eq(tag + f"canonicalize({where}, cur_orthog='calc') keeps the state", dense_vec(q, range(L)), psi)
+            _record_is_valid(mk, tag + f"canonicalize({where}, cur_orthog='calc'): isometries outside the range",
+                             q, min(where), max(where))
+            for nz in (False, True):
+                den = nrm2 if nz else 1.0
+                rho = psi_tn.copy().partial_trace_to_dense_canonical(where, normalized=nz)
+                mk.eq(tag + f"partial_trace_to_dense_canonical({where}, normalized={nz}) == dense reduced state", rho, rho_w / den)
+                info = {}
+                p = psi_tn.copy()
+                mk.eq(tag + f"local_expectation_canonical(G, {where}, normalized={nz}, info={{}})",
+                      p.local_expectation_canonical(G, where, normalized=nz, info=info), e_w / den)
+                a, b = info["cur_orthog"]
+                mk.same(tag + f"local_expectation_canonical({where}) records a range inside the target sites",
+                        min(where) <= a <= b <= max(where), True)
+                _record_is_valid(mk, tag + f"local_expectation_canonical({where}): the record left in info holds for the state left behind",
+                                 p, a, b)
+                mk.eq(tag + f"local_expectation_canonical(G, {where}, normalized={nz}, cur_orthog 'calc' in info)",
+                      psi_tn.copy().local_expectation_canonical(G, where, normalized=nz, info={"cur_orthog": "calc"}), e_w / den)
+                d = psi_tn.compute_local_expectation({where: G, w2: G2}, normalized=nz, method="canonical", return_all=True)
+                mk.eq(tag + f"compute_local_expectation(method='canonical', normalized={nz}, return_all)[{where}]", d[where], e_w / den)
+                mk.eq(tag + f"compute_local_expectation(method='canonical', normalized={nz}, return_all)[{w2}]", d[w2], e2 / den)
+                mk.eq(tag + f"compute_local_expectation_canonical({{{where}, {w2}}}, normalized={nz}) == sum",
+                      psi_tn.compute_local_expectation_canonical({where: G, w2: G2}, normalized=nz), (e_w + e2) / den)
+        mk.eq(tag + "the routes left the caller's state alone", dense_vec(psi_tn, range(L)), psi)
+
+
 # ---------------------------------------------------------------------- 2D routes
 
 def peps_sym(mk, Lx, Ly, kind="cplx", d=2, bond=lambda a, b: 2):
@@ -929,6 +1035,114 @@ def peps_equalize_norms_numeric(mk, shape):
                         kw["plaquette_map"] = explicit_plaquette_map([key], True, Lx, Ly)
                     mk.eq(f"[numeric-only] compute_local_expectation({{{key}: G}}, normalized=False, equalize_norms={en}, first_contract={first}, second_dense={sd})",
                           p.compute_local_expectation({key: G}, normalized=False, **kw), e_w, tol=1e-6)
+
+
+def dense_einsum(tn, output_inds):
+    """[numeric mode] dense array of a network by one explicit numpy einsum over its tensors' own
+    (data, inds) - no quimb contraction code; used where the explicit-loop reference is too slow"""
+    labels = {}
+    args = []
+    for t in tn:
+        args += [np.asarray(t.data), [labels.setdefault(ix, len(labels)) for ix in t.inds]]
+    out = np.einsum(*args, [labels[ix] for ix in output_inds], optimize="greedy")
+    return out * 10.0 ** float(getattr(tn, "exponent", 0.0))
+
+
+# networks of the 2D vector class whose tensor count differs from the site count
+_EXTRA_2D = ("none", "g1", "g1same", "g1x2", "g2", "g2split", "g2red", "merge")
+_NORMALIZE_OPTS = {"default": dict(), "balance": dict(balance_bonds=True), "equalize": dict(equalize_norms=True),
+                   "inplace": dict(inplace=True), "fullbond": dict(mode="full-bond"), "nocanon": dict(canonize=False)}
+
+
+def _normalize_supported(shape, extra, layer_tags):
+    """what the boundary contraction of the unchanged library accepts (the others are rejected with KeyError / ValueError:
+    a lattice with more than 2 rows or columns needs exactly one tensor per site and layer)"""
+    if extra in ("none", "g2red") or shape == (2, 2):
+        return True
+    return extra in ("g1", "g1same", "g1x2") and layer_tags is None
+
+
+def _normalize_params():
+    out = []
+    for shape in ((2, 2), (3, 2), (2, 3), (3, 3)):
+        for extra in _EXTRA_2D:
+            if any(_normalize_supported(shape, extra, lt) for lt in (None, ("KET", "BRA"))):
+                quick = shape in ((2, 2), (3, 2)) or (shape == (2, 3) and extra in ("g1", "g1x2")) or (shape == (3, 3) and extra == "g1")
+                out.append({"shape": shape, "extra": extra, "_tiers": _Q if quick else _T})
+    return out
+
+
+@obligation(PROP, params=_normalize_params(), numeric=True, wall_s=500, timeout_s=700)
+def peps_normalize_numeric(mk, shape, extra):
+    """[numeric-only supplement] TensorNetwork2DVector.normalize (a fractional power of <psi|psi> spread over the
+    tensors) on complex PEPS and on 2D vector networks whose number of tensors differs from the number of sites:
+    lazily applied one-site gates (one, two on one site, two on different sites), a lazy / split / reduce-split
+    two-site gate, two sites merged into one tensor; x layer_tags (None, two-layer) x every normalize option.
+    The result is psi / sqrt(<psi|psi>) as a dense state, so norm == 1 and normalized=False expectations on it are the
+    dense <O>/<psi|psi>."""
+    mk.encodes(c2.TensorNetwork2DVector.normalize, c2.TensorNetwork2D.contract_boundary, tc.TensorNetwork.multiply_each,
+               c2.TensorNetwork2DVector.gate, ag.TensorNetworkGenVector.local_expectation_exact,
+               c2.TensorNetwork2DVector.compute_local_expectation)
+    if mk.sym:
+        mk.note("numeric-only: normalize takes the power -1/(2 N) of <psi|psi>; boundary contraction needs real LAPACK")
+        mk.same("numeric-only cell (symbolic run skipped)", True, True)
+        return
+    Lx, Ly = shape
+    p = peps_sym(mk, Lx, Ly, kind="cplx", bond=lambda a, b: 2)
+    g = lambda name, k: mk.array(name, (2 ** k, 2 ** k), "cplx")
+    if extra == "g1":
+        p = p.gate(g("A", 1), (1, 1), contract=False)
+    elif extra == "g1same":
+        p = p.gate(g("A", 1), (1, 0), contract=False).gate(g("B", 1), (1, 0), contract=False)
+    elif extra == "g1x2":
+        p = p.gate(g("A", 1), (1, 1), contract=False).gate(g("B", 1), (0, 0), contract=False)
+    elif extra == "g2":
+        p = p.gate(g("A", 2), ((0, 0), (0, 1)), contract=False)
+    elif extra == "g2split":
+        p = p.gate(g("A", 2), ((0, 0), (0, 1)), contract="split-gate")
+    elif extra == "g2red":
+        p = p.gate(g("A", 2), ((0, 0), (0, 1)), contract="reduce-split")
+    elif extra == "merge":
+        p = p.contract_tags([p.site_tag(0, 0), p.site_tag(0, 1)], which="any")
+    mk.same("still a 2D vector network", isinstance(p, c2.TensorNetwork2DVector), True)
+    expected_extra = {"none": 0, "g1": 1, "g1same": 2, "g1x2": 2, "g2": 1, "g2split": 2, "g2red": 0, "merge": -1}[extra]
+    mk.same("tensor count - site count", p.num_tensors - Lx * Ly, expected_extra)
+    sites = list(p.gen_site_coos())
+    dims = (2,) * len(sites)
+    oinds = tuple(p.site_ind(*s) for s in sites)
+    psi = dense_einsum(p, oinds)
+    nrm2 = norm2_ref(psi)
+    wheres = [((0, 0),), ((Lx - 1, Ly - 1),), ((0, 0), (0, 1)), ((1, 0), (0, 0)), ((0, 0), (Lx - 1, Ly - 1))]
+    ops = {1: g("O1", 1), 2: g("O2", 2)}
+    ran = 0
+    for lt in (None, ("KET", "BRA")):
+        if not _normalize_supported(shape, extra, lt):
+            continue
+        for oname, o in _NORMALIZE_OPTS.items():
+            tag = f"[numeric-only] {Lx}x{Ly} PEPS + {extra}: normalize(layer_tags={lt}, {oname})"
+            q = p.copy()
+            n = q.normalize(max_bond=64, cutoff=0.0, layer_tags=lt, **o)
+            ran += 1
+            mk.same(tag + ": inplace <=> the same object", n is q, bool(o.get("inplace")))
+            if not o.get("inplace"):
+                mk.eq(tag + " leaves the original alone", dense_einsum(q, oinds), psi)
+            mk.eq(tag + ": dense state == psi / sqrt(<psi|psi>)", dense_einsum(n, oinds), psi / np.sqrt(nrm2), tol=1e-6)
+            mk.eq(tag + ": norm() == 1", n.norm(), 1.0, tol=1e-6)
+            if oname in ("default", "equalize"):
+                for where in wheres:
+                    pos = tuple(sites.index(s) for s in where)
+                    G = ops[len(where)]
+                    e_w = expect_ref(psi, G, pos, dims)
+                    mk.eq(tag + f" then local_expectation_exact(G, {where}, normalized=False) == dense <G>/<psi|psi>",
+                          n.local_expectation_exact(G, where, normalized=False), e_w / nrm2, tol=1e-6)
+                    if expected_extra == 0 and (len(where) == 1 or where[0] < where[1]) and \
+                            (len(where) == 1 or max(abs(a - b) for a, b in zip(*where)) <= 1):
+                        # plaquette route: one tensor per site, ascending pairs (what the automatic plaquette map lists)
+                        key = where[0] if len(where) == 1 else where
+                        mk.eq(tag + f" then compute_local_expectation({{{key}: G}}, normalized=False) == dense <G>/<psi|psi>",
+                              n.compute_local_expectation({key: G}, normalized=False, max_bond=64, cutoff=0.0, layer_tags=lt),
+                              e_w / nrm2, tol=1e-6)
+    mk.same("at least one supported configuration ran", ran > 0, True)
 
 
 # ---------------------------------------------------------------------- operator networks
